@@ -33,9 +33,10 @@ func pixel2Gray(r, g, b, a uint32) float64 {
 
 // rgb2GrayDefault uses the image.Image interface
 func rgb2GrayDefault(colorImg image.Image, pixels []float64, s int) {
+	min := colorImg.Bounds().Min
 	for i := 0; i < s; i++ {
 		for j := 0; j < s; j++ {
-			pixels[(i*s)+j] = pixel2Gray(colorImg.At(j, i).RGBA())
+			pixels[(i*s)+j] = pixel2Gray(colorImg.At(min.X+j, min.Y+i).RGBA())
 		}
 	}
 }
@@ -43,12 +44,13 @@ func rgb2GrayDefault(colorImg image.Image, pixels []float64, s int) {
 // YCbCR2Gray uses *image.YCbCr which is signifiantly faster than the image.Image interface.
 func YCbCR2Gray(colorImg *image.YCbCr, pixels []float64) {
 	s := colorImg.Rect.Dx()
+	min := colorImg.Rect.Min
 	for i := 0; i < s; i++ {
 		for j := 0; j < s; j += 4 {
-			pixels[(i*s)+j+0] = pixel2Gray(colorImg.YCbCrAt(j+0, i).RGBA())
-			pixels[(i*s)+j+1] = pixel2Gray(colorImg.YCbCrAt(j+1, i).RGBA())
-			pixels[(i*s)+j+2] = pixel2Gray(colorImg.YCbCrAt(j+2, i).RGBA())
-			pixels[(i*s)+j+3] = pixel2Gray(colorImg.YCbCrAt(j+3, i).RGBA())
+			pixels[(i*s)+j+0] = pixel2Gray(colorImg.YCbCrAt(min.X+j+0, min.Y+i).RGBA())
+			pixels[(i*s)+j+1] = pixel2Gray(colorImg.YCbCrAt(min.X+j+1, min.Y+i).RGBA())
+			pixels[(i*s)+j+2] = pixel2Gray(colorImg.YCbCrAt(min.X+j+2, min.Y+i).RGBA())
+			pixels[(i*s)+j+3] = pixel2Gray(colorImg.YCbCrAt(min.X+j+3, min.Y+i).RGBA())
 		}
 	}
 }
@@ -57,8 +59,8 @@ func PixelYCnCRGray(img *image.YCbCr, pixels []float64) {
 	s := img.Rect.Max.X - img.Rect.Min.X
 	for y := 0; y < s; y++ {
 		for x := 0; x < s; x++ {
-			yi := img.YOffset(x, y)
-			ci := img.COffset(x, y)
+			yi := img.YOffset(img.Rect.Min.X+x, img.Rect.Min.Y+y)
+			ci := img.COffset(img.Rect.Min.X+x, img.Rect.Min.Y+y)
 
 			yy := img.Y[yi]
 			cb := img.Cb[ci]
@@ -96,18 +98,20 @@ func PixelYCnCRGray(img *image.YCbCr, pixels []float64) {
 
 // OldYCbCR2Gray uses *image.YCbCr which is signifiantly faster than the image.Image interface.
 func OldYCbCR2Gray(colorImg *image.YCbCr, pixels []float64, s int) {
+	min := colorImg.Rect.Min
 	for i := 0; i < s; i++ {
 		for j := 0; j < s; j++ {
-			pixels[(i*s)+j] = pixel2Gray(colorImg.YCbCrAt(j, i).RGBA())
+			pixels[(i*s)+j] = pixel2Gray(colorImg.YCbCrAt(min.X+j, min.Y+i).RGBA())
 		}
 	}
 }
 
 // rgb2GrayYCbCR uses *image.RGBA which is signifiantly faster than the image.Image interface.
 func rgb2GrayRGBA(colorImg *image.RGBA, pixels []float64, s int) {
+	min := colorImg.Rect.Min
 	for i := 0; i < s; i++ {
 		for j := 0; j < s; j++ {
-			pixels[(i*s)+j] = pixel2Gray(colorImg.At(j, i).RGBA())
+			pixels[(i*s)+j] = pixel2Gray(colorImg.At(min.X+j, min.Y+i).RGBA())
 		}
 	}
 }
@@ -121,7 +125,7 @@ func Rgb2Gray(colorImg image.Image) [][]float64 {
 	for i := range pixels {
 		pixels[i] = make([]float64, w)
 		for j := range pixels[i] {
-			color := colorImg.At(j, i)
+			color := colorImg.At(bounds.Min.X+j, bounds.Min.Y+i)
 			r, g, b, _ := color.RGBA()
 			lum := 0.299*float64(r/257) + 0.587*float64(g/257) + 0.114*float64(b/256)
 			pixels[i][j] = lum
